@@ -1,6 +1,7 @@
 package pure
 
 import (
+	"encoding/json"
 	"testing"
 
 	"cqosverif/internal/evid"
@@ -30,7 +31,8 @@ func FuzzC13(f *testing.F) {
 	f.Add(int64(3), uint64(1<<63), int64(1<<62))
 	f.Fuzz(func(t *testing.T, i int64, q uint64, min int64) {
 		if err := CheckC13(RateCase{I: i, Q: q, Min: min}); err != nil {
-			t.Fatalf("C13 violated: %v (case %+v)", err, RateCase{I: i, Q: q, Min: min})
+			js, _ := json.Marshal(RateCase{I: i, Q: q, Min: min})
+			t.Fatalf("C13 violated: %v\nVERIF-FUZZ-CASE %s", err, js)
 		}
 	})
 }
